@@ -344,6 +344,26 @@ def check_direct_edges(ctx, rep):
     return n
 
 
+def _flat_map_union(prog, cs, ret):
+    """the iterator spelling of `for d in defs { set.insert(d); set.extend(all_supertypes_of(d.def_symbol())) }`:
+    defs.flat_map(|d| once(d).chain(self.all_supertypes_of(d.def_symbol()))) collected into a HashSet that `ret` is made from"""
+    fm = [c for c in cs if c[2].endswith("Iterator::flat_map")]
+    if len(fm) != 1 or "Iterator::flat_map(" not in ret or "HashSet" not in ret:
+        return False
+    src = fm[0][3][0]
+    x = "elem(%s)" % src
+    for c in cs:
+        if not c[2].endswith("Iterator::chain") or c[0].rec["kind"] != "Closure":
+            continue
+        a = c[3]
+        if a[0] != "std::iter::once(%s)" % x or a[1] != "haystack::defs::namespace::Namespace::all_supertypes_of(_1*, haystack::defs::namespace::DefDict::def_symbol(%s))" % x:
+            continue
+        rv = G.describe_place(c[0], {"l": 0, "p": []})
+        if rv.kind == "call" and strip_generics(rv.v).endswith("Iterator::chain"):
+            return True
+    return False
+
+
 def check_reflect(ctx, rep):
     prog = ctx.prog
     n = 0
@@ -370,6 +390,13 @@ def check_reflect(ctx, rep):
             if c_sup[3][0] == "_1*" and c_sup[3][1] == "haystack::defs::namespace::DefDict::def_symbol(%s)" % x:
                 if any(c_ins[3][0] == e[3][0] and "Namespace::all_supertypes_of(" in e[3][1] for e in ext_all):
                     union_ok = True
+    fb0 = prog.get(NS + "find_supertypes_from_defs")
+    if not union_ok and mret and "Iterator::flat_map(" in mret.group(1):
+        # the closure of the spliced helper is the helper's: judge the step there
+        if fb0 is not None and _flat_map_union(prog, _calls(prog, fb0), repr(G.describe_place(fb0, {"l": 0, "p": []}))):
+            union_ok = True
+        elif _flat_map_union(prog, cs, mret.group(1)):
+            union_ok = True
     if mret and "Iterator::collect(" in mret.group(1) and "HashSet" in mret.group(1) and union_ok:
         _ok(rep, "reflect:result", b.where(), "Reflection::make(subject, union over the collected defs of {def} + all_supertypes_of(def), ns)")
     else:
@@ -432,6 +459,8 @@ def check_reflect(ctx, rep):
         ret2 = repr(G.describe_place(fb, {"l": 0, "p": []}))
         good = (len(ins2) == 1 and len(sup2) == 1 and len(ext2) == 1 and sup2[0][3][0] == "_1*" and sup2[0][3][1] == "haystack::defs::namespace::DefDict::def_symbol(%s)" % ins2[0][3][1]
                 and ins2[0][3][0] == ext2[0][3][0] and "Namespace::all_supertypes_of(" in ext2[0][3][1] and "Iterator::collect(" in ret2 and ins2[0][3][0] in ret2)
+        if not good and _flat_map_union(prog, cs2, ret2):
+            good = True
         if good:
             _ok(rep, "reflect:supertypes-of-all", fb.where(), "result = union over defs of {def} + all_supertypes_of(def)")
         else:
